@@ -2,7 +2,7 @@ import CookModel.Side.BuilderTypes
 import CookModel.Gen.UnitsFile
 /-
   C16 — model of `ConverterBuilder` (src/convert/builder.rs), as repaired by
-  fixes/0001-fix-reject-best-units-of-another-physical-quantity.patch.
+  fixes/0001-fix-reject-best-units-of-another-physical-quantity-w.patch.
 
   Statement order, error order and the places where the Rust code indexes / unwraps / asserts are
   kept: each of those is `Except.error (.panic site)`.  Numeric fields are over `[Arith α]`.
